@@ -62,7 +62,7 @@ func stdUniverse() *universe {
 			{name: long, kind: 'm'},
 			// leaves used by the reference burst of profile throttle (never picked at random)
 			{name: "c.n", kind: 'c'}, {name: "m.n1", kind: 'm'}, {name: "m.n2", kind: 'm'},
-			{name: "m.l1", kind: 'm'}, {name: "m.l2", kind: 'm'}, {name: "m.l3", kind: 'm'}, {name: "m.l4", kind: 'm'}, {name: "m.l5", kind: 'm'},
+			{name: "m.l1", kind: 'm'}, {name: "m.l2", kind: 'm'}, {name: "m.l3", kind: 'm'}, {name: "m.l4", kind: 'm'}, {name: "m.l5", kind: 'm'}, {name: "m.l6", kind: 'm'}, {name: "m.l7", kind: 'm'},
 		},
 		norm: map[string]string{"q=a": "q=n1", "q=b": "q=n1", "q=c": "q=n2", "q=n1": "q=n1", "q=n2": "q=n2"},
 		init: map[string]string{
@@ -71,7 +71,7 @@ func stdUniverse() *universe {
 			"m.r2e": "k1=r:m.err,k2=p4", "q.m?q=n1": "k1=p1", "q.m?q=n2": "k1=p2,k2=r:m.b", "q.c?q=n1": "p1,p2",
 			"q.c?q=n2": "p3", "cid.{cid}.m": "k1=p9", long: "k1=p1", "m.pq": "k1=p1,k2=r:m.b",
 			"c.n": "p1", "m.n1": "k1=r:m.l1,k2=p1", "m.n2": "k1=r:m.l2,k2=r:m.l3",
-			"m.l1": "k1=p1", "m.l2": "k1=p2", "m.l3": "k1=p3", "m.l4": "k1=p4", "m.l5": "k1=p5",
+			"m.l1": "k1=p1", "m.l2": "k1=p2", "m.l3": "k1=p3", "m.l4": "k1=p4", "m.l5": "k1=p5", "m.l6": "k1=p6", "m.l7": "k1=p7",
 		},
 	}
 	u.rids = []string{"m.a", "m.b", "m.c", "m.self", "c.a", "c.b", "m.err", "m.r2e", "q.m?q=a", "q.m?q=b", "q.m?q=c",
@@ -567,6 +567,27 @@ func (g *gen) mutate(tr *truthRes, c *wsClient) (event string, payload string) {
 			delete(tr.model, k)
 			return "change", fmt.Sprintf(`{"values":{%q:{"action":"delete"}}}`, k)
 		}
+		// sometimes several keys in one event: new references next to soft references, data values
+		// and primitives (what a legacy client sees differs per value kind)
+		if g.r.chance(1, 5) {
+			pool := append(append([]aval{}, valuePool...), "r:m.l1", "r:m.l2", "s:m.c", "s:m.l3", "d5")
+			ks := []string{"k1", "k2", "k3", "k4", "k5"}
+			n := 2 + g.r.intn(2)
+			var parts []string
+			used := map[string]bool{}
+			for len(parts) < n {
+				kk := pick(g.r, ks)
+				if used[kk] {
+					continue
+				}
+				used[kk] = true
+				vv := pick(g.r, pool)
+				tr.model[kk] = vv
+				parts = append(parts, fmt.Sprintf("%q:%s", kk, vv.json()))
+			}
+			sort.Strings(parts)
+			return "change", `{"values":{` + strings.Join(parts, ",") + `}}`
+		}
 		v := cidFix(pick(g.r, valuePool))
 		// sometimes move a reference between keys in one event
 		if g.r.chance(1, 6) {
@@ -693,6 +714,16 @@ func (g *gen) event() {
 		} else {
 			bad = pick(g.r, []string{`{"values":{"k1":{"x":1}}}`, `{"values":{"k1":[1]}}`, `[]`, `not json`, `{"values":{"k1":{"rid":"a","data":1}}}`,
 				`{"values":{"k1":{"rid":""}}}`, `{"values":{"k1":{"action":"remove"}}}`, `{"values":{"k9":{"action":"delete"}}}`})
+			if g.r.chance(1, 2) {
+				// a valid, changing value in front of the malformed one: nothing of it may be applied
+				g.qeN++
+				lead := fmt.Sprintf(`"k1":"partial-%d",`, g.qeN)
+				if g.r.chance(1, 3) {
+					lead = `"k1":{"action":"delete"},"k2":{"rid":"m.a"},`
+				}
+				bad = `{"values":{` + lead + pick(g.r, []string{`"k3":{"x":1}`, `"k3":[1]`, `"k3":{"rid":"a","data":1}`, `"k3":{"rid":""}`,
+					`"k3":{"action":"remove"}`, `"k3":{"data":1,"action":"delete"}`, `"k3":{"rid":"m..a"}`}) + `}}`
+			}
 		}
 		w.publish("event."+name+"."+ev, bad)
 	}
@@ -1110,6 +1141,82 @@ func (g *gen) deleteRun() {
 	g.drain()
 }
 
+// leaverRun: access re-checks of several connections wait in a reset throttle; the connection whose
+// request holds the slot goes away before the answer arrives. The late answer must be absorbed and
+// the slot handed on: the others' re-checks are still sent (C11, C19).
+func (g *gen) leaverRun() {
+	w := g.w
+	for len(g.liveClients()) < 3 {
+		g.connect()
+	}
+	cs := g.liveClients()
+	if len(cs) < 2 || w.stall != "" {
+		return
+	}
+	g.kinds["leaver-run"]++
+	rid := pick(g.r, []string{"m.l6", "m.l7"})
+	for _, c := range cs {
+		w.request(c, "subscribe."+rid, "")
+	}
+	g.drain()
+	w.publish("system.reset", `{"access":[">"]}`)
+	// the connection(s) whose re-check is outstanding leave before the answer
+	left := 0
+	for _, rq := range w.mq.outstanding() {
+		if !strings.HasPrefix(rq.subject, "access.") || left >= 1+g.r.intn(2) {
+			continue
+		}
+		var p struct {
+			CID string `json:"cid"`
+		}
+		json.Unmarshal(rq.payload, &p)
+		for _, c := range g.liveClients() {
+			if c.cid == p.CID {
+				w.disconnect(c)
+				left++
+			}
+		}
+	}
+	g.drain()
+}
+
+// resetFailRun: a system reset re-fetches several resources under the reset throttle and some of
+// the re-fetches fail (timeout, error): every slot must be handed on, all resources are re-fetched.
+func (g *gen) resetFailRun() {
+	cs := g.liveClients()
+	if len(cs) == 0 {
+		return
+	}
+	c := cs[0]
+	w := g.w
+	g.kinds["reset-fail-run"]++
+	for _, rid := range []string{"m.l6", "m.l7", "m.a", "c.a"} {
+		w.request(c, "subscribe."+rid, "")
+	}
+	g.drain()
+	w.publish("system.reset", `{"resources":["m.>","c.*"]}`)
+	for round := 0; round < 12; round++ {
+		rs := w.mq.outstanding()
+		if len(rs) == 0 || w.stall != "" {
+			break
+		}
+		rq := rs[len(rs)-1]
+		if strings.HasPrefix(rq.subject, "get.") && round < 3 {
+			switch g.r.intn(3) {
+			case 0:
+				w.answer(rq, "timeout", nil, mq.ErrRequestTimeout)
+			case 1:
+				w.answer(rq, "err:system.internalError", []byte(errJSON(reserr.CodeInternalError)), nil)
+			default:
+				w.answer(rq, "noresponders", nil, mq.ErrNoResponders)
+			}
+			continue
+		}
+		g.answerOne(rq, true)
+	}
+	g.drain()
+}
+
 // refBurst: one change event adds five uncached references to a model held by one connection.
 // All of them are loaded under the subscription's reference throttle: at no moment may more
 // than `limit` of their get requests be outstanding (C19), and all must eventually be sent.
@@ -1135,6 +1242,7 @@ func (g *gen) refBurst(limit int) {
 	}
 	g.w.publish("event.m.self.change", `{"values":{`+strings.Join(parts, ",")+`}}`)
 	seen := map[string]bool{}
+	waited := 0
 	for round := 0; round < 12; round++ {
 		var burst []*mockReq
 		for _, rq := range g.w.mq.outstanding() {
@@ -1149,8 +1257,18 @@ func (g *gen) refBurst(limit int) {
 			g.w.addViolation("C19", "reference-burst-exceeds-limit", fmt.Sprintf("%d get requests for references added by one event are outstanding, the reference throttle is %d", len(burst), limit))
 		}
 		if len(burst) == 0 {
+			// Throttle.Done starts the next get with `go cb()`: give that goroutine time to run
+			// before concluding that a reference is never requested
+			if len(seen) < len(leaves) && waited < 250 && g.w.stall == "" {
+				waited++
+				round--
+				time.Sleep(2 * time.Millisecond)
+				g.w.apply("# waiting for a throttled request", func() {})
+				continue
+			}
 			break
 		}
+		waited = 0
 		g.answerOne(burst[len(burst)-1], true) // newest first
 	}
 	g.drain()
@@ -1171,7 +1289,7 @@ func (g *gen) drain() {
 			// Throttle.Done starts the next waiting callback with `go cb()`: between the answer
 			// that freed the slot and the request of the next callback the gateway looks idle. If a
 			// subscription still waits for an access answer, give that goroutine time to run.
-			if (g.w.cfg.referenceThrottle > 0 || g.w.cfg.resetThrottle > 0) && waited < 250 && g.w.accessCheckWaiting() {
+			if (g.w.cfg.referenceThrottle > 0 || g.w.cfg.resetThrottle > 0) && waited < 250 && (g.w.accessCheckWaiting() || (g.w.cfg.resetThrottle > 0 && g.w.refetchWaiting())) {
 				waited++
 				time.Sleep(2 * time.Millisecond)
 				g.w.apply("# waiting for a throttled request", func() {})
@@ -1236,6 +1354,12 @@ func runHistory(p profile, seed uint64, index int, keepSteps bool, wantSnap bool
 	}
 	if p.name == "churn" && r.chance(1, 6) {
 		g.deleteRun()
+	}
+	if p.name == "throttle" && cfg.resetThrottle > 0 && r.chance(1, 5) {
+		g.leaverRun()
+	}
+	if p.name == "throttle" && cfg.resetThrottle > 0 && r.chance(1, 5) {
+		g.resetFailRun()
 	}
 	if p.name == "throttle" && cfg.referenceThrottle > 0 && r.chance(1, 4) {
 		g.refBurst(cfg.referenceThrottle)
